@@ -566,3 +566,26 @@ pub fn run(ctx: &Ctx, rep: &mut Report) {
 pub fn replay(_sub: &str, case: &Value) -> Result<(), String> {
     check(&from_json(case), &mut Stats::new())
 }
+
+/// Fuzz entry: bytes -> shape + raw operation descriptors -> model-based check.
+pub fn fuzz_one(data: &[u8]) -> Result<(), String> {
+    use arbitrary::Unstructured;
+    let mut u = Unstructured::new(data);
+    let width = match u.int_in_range(0..=3u8).unwrap_or(0) {
+        0 => u.int_in_range(2..=200usize).unwrap_or(2),
+        1 => u.int_in_range(63..=66usize).unwrap_or(63),
+        2 => u.int_in_range(127..=130usize).unwrap_or(127),
+        _ => u.int_in_range(2..=40usize).unwrap_or(2),
+    };
+    let extra_height = u.int_in_range(0..=70usize).unwrap_or(0);
+    let pmax = (width - 1).min(70).max(1);
+    let dense_hint = u.int_in_range(1..=pmax).unwrap_or(1);
+    let density = u.int_in_range(0..=3u8).unwrap_or(0);
+    let fill_seed: u64 = u.arbitrary().unwrap_or(0);
+    let mut ops = vec![];
+    while !u.is_empty() && ops.len() < 200 {
+        ops.push(RawOp { kind: u.arbitrary().unwrap_or(0), a: u.arbitrary().unwrap_or(0), b: u.arbitrary().unwrap_or(0), c: u.arbitrary().unwrap_or(0), d: u.arbitrary().unwrap_or(0) });
+    }
+    let c = Case { width, extra_height, dense_hint, density, fill_seed, ops };
+    check(&c, &mut Stats::new()).map_err(|m| format!("{m} | case {}", to_json(&c)))
+}
